@@ -34,7 +34,7 @@ def expected_canon(v, ty):
             elif r == 1 or c == 1:
                 body = '[' + ','.join(expected_canon(e, ty.inner) for e in es) + ']'
             elif r * c == 0:
-                body = '[]'          # an empty (0 x 0) matrix part of a dynamically sized number: nalgebra's printer writes an empty bracket pair
+                body = '[]'          # an empty (0 x n, n x 0) matrix part of a dynamically sized number: nalgebra's printer writes an empty bracket pair
             else:
                 body = ''.join(expected_canon(es[j * r + i], ty.inner) for i in range(r) for j in range(c))    # row-major reading order
             out += '+' + body + sym
